@@ -135,13 +135,11 @@ Fixpoint sc (w : wf) (c : chan) (t : Q) {struct w} : option Q :=
          | S k' => let e := time + bd in if Qltb t e then sc b c (t - time) else go k' e
          end) (Z.to_nat n) 0
   | WTrans i T =>
-      match t_in T [c] with
+      (* the transformation applied to the COMPLETE inner waveform (all its channels), not to the channels that
+         get_input_channels selects *)
+      match t_point T t (map (fun ic => (ic, sc i ic t)) (channels i)) with
+      | Some out => match lookup c out with Some v => v | None => None end
       | None => None
-      | Some ins =>
-          match t_point T t (map (fun ic => (ic, sc i ic t)) ins) with
-          | Some out => match lookup c out with Some v => v | None => None end
-          | None => None
-          end
       end
   | WSubset i _ => sc i c t
   | WArith l o r =>
